@@ -22,11 +22,10 @@ fn ref_signable(info_hash: &[u8; 20], t: u64) -> [u8; 28] {
 }
 
 //@ ob: C02.O2
-//@ rss: 35.2
-//@ time: 843
-//@ tier: thorough
-//@ cap: 2400
-//@ mem: 40
+//@ tier: quick
+//@ cap: 800
+//@ rss: 1.5
+//@ time: 43
 //@ desc: SignedAnnounce::from_dht_response(info_hash, k, t, sig) = Ok iff the oracle said valid for exactly (k, info_hash || t as 8 big-endian bytes, sig); key, timestamp and signature are copied; the wall clock plays no role (any timestamp, any clock)
 //@ bounds: k = a concrete valid key; info_hash 20 symbolic bytes; t full u64; now full u64; sig 64 symbolic bytes; symbolic verdict; unwind 66
 //@ stubs: <VerifyingKey as Verifier<Signature>>::verify -> oracle; VerifyingKey::from_bytes -> wrap without point decompression (real decompression: C02.O2c and native replay); signed_announce::system_time -> symbolic u64 microseconds
